@@ -92,6 +92,7 @@ type RecWriter struct {
 	Yield      bool
 	Delay      time.Duration
 	Failed     int
+	Err        error // what a failing write returns (nil = ErrWriter)
 	Concurrent int // max concurrent Write calls observed (must stay 1)
 	inflight   int
 	OnWrite    func(i int)
@@ -127,12 +128,16 @@ func (w *RecWriter) Write(p []byte) (int, error) {
 	w.inflight--
 	if w.FailAt >= 0 && (i == w.FailAt || (i > w.FailAt && !w.Transient)) {
 		w.Failed++
+		e := w.Err
+		if e == nil {
+			e = ErrWriter
+		}
 		if w.Short && i == w.FailAt && len(p) > 1 {
 			n := len(p) / 2
 			w.Buf = append(w.Buf, p[:n]...)
-			return n, ErrWriter
+			return n, e
 		}
-		return 0, ErrWriter
+		return 0, e
 	}
 	w.Buf = append(w.Buf, p...)
 	return len(p), nil
